@@ -8,7 +8,8 @@ generated OccaGen/Builtins.lean.  Lemmas: OccaProofs/Lemmas/Dtype.lean.
 Statement of the property, clause by clause:
   (a) serialising any dtype and reading it back yields an equivalent value: same kind, names,
       field order, element types and byte size
-        C11_roundtrip, C11_roundtrip_value, C11_roundtrip_stable, C11_equiv_observables
+        C11_roundtrip, C11_roundtrip_value, C11_roundtrip_stable, C11_equiv_observables,
+        C11_accepted_json_roundtrips
   (b) cast compatibility between any two dtypes is unchanged by the round trip
         C11_cast_invariant, C11_equiv_cast
   (c) the same for any kernel's argument metadata
@@ -75,6 +76,21 @@ theorem C11_roundtrip_stable (d : Dtype) (n : String) (hw : d.WF) :
   refine ⟨Dtype.toJson_norm d n n, ?_⟩
   rw [Dtype.toJson_norm d n n]
   exact C11_roundtrip_value d n d.depth hw (Nat.le_refl _)
+
+/-- The converse direction, for ARBITRARY json (hand-edited or foreign build.json): whatever
+    `fromJson` accepts — any value, any fuel — is a well-formed dtype, so it serialises and reads
+    back to an equivalent dtype of the same size. -/
+theorem C11_accepted_json_roundtrips (fuel : Nat) (j : Json) (d : Dtype) (n : String)
+    (h : Dtype.fromJson fuel j = .ok d) :
+    d.WF ∧ ∃ d', Dtype.fromJson d.depth (d.toJson n) = .ok d' ∧ d.Equiv d' ∧ d'.bytes = d.bytes :=
+  ⟨Dtype.fromJson_wf fuel j d h, Dtype.norm n d,
+   C11_roundtrip_value d n d.depth (Dtype.fromJson_wf fuel j d h) (Nat.le_refl _),
+   Dtype.equiv_norm d n, Dtype.bytes_norm d n⟩
+
+example : Dtype.fromJson 2 (.obj [("type", .str "tuple"), ("dtype", .obj [("type", .str "builtin"), ("name", .str "int8")]),
+    ("size", .num 3)]) = .ok (.tuple "" (.prim "char") 3) := by
+  simp [Dtype.fromJson, Json.get, Json.has, List.find?, Json.toStr?, Json.isNumber, Json.toInt, isBuiltinKey, getBuiltin,
+        Gen.builtinMap, registeredByName, Gen.dtypeTuples, isPrimName, pure, Except.pure]
 
 /-- What `Equiv` gives an observer: equivalent dtypes have the same `bytes()`, the same
     flattened element types and agree on being the `byte` wildcard. -/
